@@ -171,12 +171,14 @@ def build_tu(proj, job):
     parts = [PRELUDE % dict(strcap=job.strcap)]
     # constants: Math always, own class, extra classes
     seen = set()
-    for c in ['Math'] + job.const_classes:
-        if c != cls and c not in seen:
+    # const_classes entries starting with '<' are emitted before the function's own class (its constants use them)
+    order = ['Math'] + [c[1:] for c in job.const_classes if c.startswith('<')] + ['@own'] + [c for c in job.const_classes if not c.startswith('<')]
+    for c in order:
+        if c == '@own':
+            parts.append(T.emit_constants(proj, cls, own=True, real=real, report=report))
+        elif c != cls and c not in seen:
             parts.append(T.emit_constants(proj, c, own=False, real=real, report=report))
             seen.add(c)
-    if cls != 'Math' or True:
-        parts.append(T.emit_constants(proj, cls, own=True, real=real, report=report))
     # structs
     need_struct = set()
     if fi.is_method:
